@@ -1,9 +1,116 @@
-//! C18: Datagram::{new, encode, decode} and the Buf impl of EncodedDatagram.
+//! C18: Datagram::{new, encode, decode} and the Buf impl of EncodedDatagram, plus their real call sites:
+//!   dg.tx <sid> <chunk.chunk..>   a real h3 server connection over SimQuic; `get_datagram_sender(sid).send_datagram(payload)`;
+//!                                 prints `ok <bytes the transport received>` (exactly one QUIC datagram must have been sent)
+//!   dg.rx <hex> / dg.rxw <hex>    a QUIC datagram with these bytes arrives at a real h3 server connection (rx: before
+//!                                 `get_datagram_reader().read_datagram()` is first polled, rxw: while it is pending); the
+//!                                 connection driver (`accept()`) runs as a second task.  Prints
+//!                                 `ok <sid> <payload> close <code|->` | `err <code of the returned connection error> close <code the
+//!                                 transport was closed with|->` | `pending close ..` (read_datagram did not return)
 use bytes::{Buf, Bytes};
 use h3::quic::StreamId;
 use h3_datagram::datagram::Datagram;
+use h3_datagram::datagram_handler::{DatagramReader, HandleDatagramsExt};
+use h3v::simquic::*;
 use h3v::{code_value, hex, run_lines, unhex, ChunkBuf};
 use std::convert::TryFrom;
+use std::sync::{Arc, Mutex};
+
+fn close_code(world: &Shared) -> String {
+    match &world.lock().unwrap().closed {
+        Some((c, _)) => c.to_string(),
+        None => "-".into(),
+    }
+}
+
+fn tx_case(sid: &str, pl: &str) -> String {
+    let sid: u64 = sid.parse().unwrap();
+    let chunks: Vec<Bytes> = if pl == "-" { vec![] } else { pl.split('.').map(|c| Bytes::from(unhex(c))).collect() };
+    let world = World::new(Side::Server, 100, 100, None);
+    let mut ex = Exec::new();
+    let w = world.clone();
+    let t = ex.spawn(async move {
+        let conn: h3::server::Connection<SimConn, ChunkBuf> =
+            match h3::server::builder().enable_datagram(true).send_grease(false).build(SimConn { world: w }).await {
+                Ok(c) => c,
+                Err(e) => return format!("build-err {}", conn_err(&e)),
+            };
+        let mut sender = conn.get_datagram_sender(StreamId::try_from(sid).unwrap());
+        match sender.send_datagram(ChunkBuf::new(chunks)) {
+            Ok(()) => "sent".to_string(),
+            Err(e) => format!("send-err {:?}", e).replace(' ', "_"),
+        }
+    });
+    ex.run();
+    let r = match ex.result(t) {
+        Some(r) => r.clone(),
+        None => return "pending".into(),
+    };
+    if r != "sent" {
+        return format!("err {}", r);
+    }
+    let g = world.lock().unwrap();
+    if g.dgram_tx.len() != 1 {
+        return format!("err sent-count={}", g.dgram_tx.len());
+    }
+    format!("ok {}", hex(&g.dgram_tx[0]))
+}
+
+fn rx_case(h: &str, arrive_while_pending: bool) -> String {
+    let world = World::new(Side::Server, 100, 100, None);
+    let mut ex = Exec::new();
+    let cell: Arc<Mutex<Option<DatagramReader<SimDgramRecv>>>> = Arc::new(Mutex::new(None));
+    let (w, c2) = (world.clone(), cell.clone());
+    // task 0: builds the connection, hands out the reader, then drives the connection like every server application does
+    let driver = ex.spawn(async move {
+        let mut conn: h3::server::Connection<SimConn, Bytes> =
+            match h3::server::builder().enable_datagram(true).send_grease(false).build(SimConn { world: w }).await {
+                Ok(c) => c,
+                Err(e) => return format!("build-err {}", conn_err(&e)),
+            };
+        *c2.lock().unwrap() = Some(conn.get_datagram_reader());
+        loop {
+            match conn.accept().await {
+                Ok(Some(_)) => {}
+                Ok(None) => return "accept-none".into(),
+                Err(e) => return format!("accept-err {}", conn_err(&e)),
+            }
+        }
+    });
+    ex.run();
+    let mut reader = match cell.lock().unwrap().take() {
+        Some(r) => r,
+        None => return format!("err no-reader {:?}", ex.result(driver)),
+    };
+    let ev = format!("D:{}", h);
+    if !arrive_while_pending {
+        apply_event(&world, &ev);
+    }
+    let t = ex.spawn(async move {
+        match reader.read_datagram().await {
+            Ok(d) => format!("ok {} {}", d.stream_id().into_inner(), hex(d.payload().chunk())),
+            Err(e) => {
+                let s = stream_err(&e); // c:<code>:<variant> for a connection-level error
+                let mut it = s.split(':');
+                match (it.next(), it.next()) {
+                    (Some("c"), Some(code)) => format!("err {}", code),
+                    _ => format!("err not-a-connection-error:{}", s),
+                }
+            }
+        }
+    });
+    ex.run();
+    if arrive_while_pending {
+        if ex.result(t).is_some() {
+            return "err returned-before-any-datagram".into();
+        }
+        apply_event(&world, &ev);
+        ex.run();
+    }
+    match ex.result(t) {
+        Some(r) => format!("{} close {}", r, close_code(&world)),
+        None => format!("pending close {}", close_code(&world)),
+    }
+}
 
 /// Encodes and consumes the datagram as scripted.  Steps: cK (take <= K bytes of chunk()), aK (advance K),
 /// bK (copy_to_bytes(min(K, remaining))), g (get_u8).  Final drain: d = chunk by chunk, B = copy_to_bytes(remaining())
@@ -104,6 +211,9 @@ fn enc_case(sid: &str, pl: &str, steps: &str, drain: &str) -> String {
 
 fn main() {
     run_lines(|ws| match ws {
+        ["dg.tx", sid, pl] => tx_case(sid, pl),
+        ["dg.rx", h] => rx_case(h, false),
+        ["dg.rxw", h] => rx_case(h, true),
         ["dg.enc", sid, pl, steps] => enc_case(sid, pl, steps, "d"),
         ["dg.enc", sid, pl, steps, drain] => enc_case(sid, pl, steps, drain),
         ["dg.dec", h] => {
